@@ -463,3 +463,33 @@ package document
 //@ props C09
 //@ modifies cell:[]*CellInfo, []*CellInfo
 //@ ensures result == nil
+
+// AddCellList appends one single-run paragraph per list item to the addressed cell (validation of the configuration
+// happens before the first write, so failure is atomic).
+//@ func (*Table).AddCellList
+//@ props C09
+//@ appendfacts
+//@ requires t != nil && rowsOwn(t) && cellParasOwn(t)
+//@ modifies TableCell.Paragraphs, Paragraph.*
+//@ ensures err == nil <==> (0 <= row && row < len(t.Rows) && 0 <= col && col < len(t.Rows[row].Cells) && config != nil && len(config.Items) > 0)
+//@ ensures err != nil ==> unchangedHeap()
+//@ ensures err == nil ==> len(t.Rows[row].Cells[col].Paragraphs) == old(len(t.Rows[row].Cells[col].Paragraphs)) + len(config.Items)
+//@ ensures err == nil ==> forall k int :: 0 <= k && k < old(len(t.Rows[row].Cells[col].Paragraphs)) ==> t.Rows[row].Cells[col].Paragraphs[k] == old(t.Rows[row].Cells[col].Paragraphs[k])
+//@ ensures err == nil ==> forall k int :: old(len(t.Rows[row].Cells[col].Paragraphs)) <= k && k < len(t.Rows[row].Cells[col].Paragraphs) ==> len(t.Rows[row].Cells[col].Paragraphs[k].Runs) == 1 && freshArr(t.Rows[row].Cells[col].Paragraphs[k].Runs) && t.Rows[row].Cells[col].Paragraphs[k].Properties == nil
+//@ ensures err == nil ==> forall r int, c int :: 0 <= r && r < len(t.Rows) && 0 <= c && c < len(t.Rows[r].Cells) && (r != row || c != col) ==> t.Rows[r].Cells[c].Paragraphs == old(t.Rows[r].Cells[c].Paragraphs)
+//@ ensures err == nil ==> forall r int, c int, k int :: 0 <= r && r < len(t.Rows) && 0 <= c && c < len(t.Rows[r].Cells) && (r != row || c != col) && 0 <= k && k < len(t.Rows[r].Cells[c].Paragraphs) ==> t.Rows[r].Cells[c].Paragraphs[k] == old(t.Rows[r].Cells[c].Paragraphs[k])
+//@ ensures err == nil ==> rowsOwn(t)
+//@ ensures err == nil ==> cellParasOwn(t)
+//@ ensures err == nil && old(cellPropsOwn(t)) ==> cellPropsOwn(t)
+//@ ensures err == nil && old(rowPropsOwn(t)) ==> rowPropsOwn(t)
+//@ loop 1
+//@   invariant 0 <= #i && #i <= len(config.Items) && 0 <= row && row < len(t.Rows) && 0 <= col && col < len(t.Rows[row].Cells) && cell == &t.Rows[row].Cells[col]
+//@   invariant unchangedExcept("TableCell.Paragraphs", "Paragraph.*")
+//@   invariant len(cell.Paragraphs) == old(len(cell.Paragraphs)) + #i
+//@   invariant arr(cell.Paragraphs) < allocBound() && (arr(cell.Paragraphs) == old(arr(cell.Paragraphs)) || freshArr(cell.Paragraphs)) && (arr(cell.Paragraphs) == old(arr(cell.Paragraphs)) ==> off(cell.Paragraphs) == old(off(cell.Paragraphs)))
+//@   invariant forall k int :: 0 <= k && k < old(len(cell.Paragraphs)) ==> cell.Paragraphs[k] == old(cell.Paragraphs[k])
+//@   invariant forall k int :: old(len(cell.Paragraphs)) <= k && k < len(cell.Paragraphs) ==> len(cell.Paragraphs[k].Runs) == 1 && freshArr(cell.Paragraphs[k].Runs) && cell.Paragraphs[k].Properties == nil
+//@   invariant forall r int, c int :: 0 <= r && r < len(t.Rows) && 0 <= c && c < len(t.Rows[r].Cells) && (r != row || c != col) ==> t.Rows[r].Cells[c].Paragraphs == old(t.Rows[r].Cells[c].Paragraphs)
+//@   invariant forall r int, c int, k int :: 0 <= r && r < len(t.Rows) && 0 <= c && c < len(t.Rows[r].Cells) && (r != row || c != col) && 0 <= k && k < len(t.Rows[r].Cells[c].Paragraphs) ==> t.Rows[r].Cells[c].Paragraphs[k] == old(t.Rows[r].Cells[c].Paragraphs[k])
+//@   invariant cellParasOwn(t)
+//@   decreases len(config.Items) - #i
